@@ -1,11 +1,135 @@
 """C05 -- decided by the shared proxy pipeline (checks/proxylib.py): Proxy.tla/Authz.tla model checking, TLC-generated
 scenarios replayed on the real ProxyServer, and TLC trace validation of every observed request against
-spec/trace/ProxyTrace.tla with the C05 invariants."""
+spec/trace/ProxyTrace.tla with the C05 invariants.  The clause "the date is the proxy's current time" is also decided
+on runs in which the machine's wall clock is stepped while the agent runs (spec/trace/StampTrace.tla)."""
+import email.utils
+import os
+
 from checks import proxylib
+from vlib import rig, util
+from vlib.ctx import validate_trace
+
+WALL_SHIM_C = r"""
+#define _GNU_SOURCE
+#include <time.h>
+#include <stdint.h>
+#include <stdlib.h>
+#include <fcntl.h>
+#include <unistd.h>
+#include <sys/mman.h>
+#include <sys/syscall.h>
+/* CLOCK_REALTIME + the 8-byte little-endian number of seconds held in the file named by VERIF_CLOCK_FILE;
+   CLOCK_MONOTONIC is left alone (a stepped wall clock) */
+static volatile int64_t *off = 0;
+static int tried = 0;
+static void init(void) {
+    tried = 1;
+    const char *p = getenv("VERIF_CLOCK_FILE");
+    if (!p) return;
+    int fd = open(p, O_RDWR | O_CREAT, 0644);
+    if (fd < 0) return;
+    if (ftruncate(fd, 8) == 0) {
+        void *m = mmap(0, 8, PROT_READ | PROT_WRITE, MAP_SHARED, fd, 0);
+        if (m != MAP_FAILED) off = (volatile int64_t *)m;
+    }
+    close(fd);
+}
+int clock_gettime(clockid_t c, struct timespec *ts) {
+    long r = syscall(SYS_clock_gettime, c, ts);
+    if (r == 0 && (c == CLOCK_REALTIME || c == CLOCK_REALTIME_COARSE)) {
+        if (!tried) init();
+        if (off) ts->tv_sec += *off;
+    }
+    return (int)r;
+}
+"""
+
+
+def build_wall_shim():
+    d = os.path.join(util.RUNDIR, "c05shim")
+    os.makedirs(d, exist_ok=True)
+    src, so = os.path.join(d, "wallshim.c"), os.path.join(d, "wallshim.so")
+    if not os.path.exists(so):
+        with open(src, "w") as f:
+            f.write(WALL_SHIM_C)
+        util.sh(["gcc", "-O2", "-shared", "-fPIC", "-o", so, src], timeout=120)
+    return so
+
+
+def wall_clock_steps(c, prop="C05"):
+    """The wall clock is stepped forwards and backwards between requests (relayed ones on old and new connections, and the
+    agent's own calls to the host); every request the host receives carries exactly one date, the proxy's, reading the wall
+    clock as it is THEN."""
+    so = build_wall_shim()
+    cf = os.path.join(util.RUNDIR, "c05shim", "offset_%d" % os.getpid())
+    with open(cf, "wb") as f:
+        f.write((0).to_bytes(8, "little"))
+    root_ws = {"uid": 0, "admin": 1, "dip": "168.63.129.16", "dport": 80}
+    user_imds = {"uid": 1000, "admin": 0, "dip": "169.254.169.254", "dport": 80}
+    steps = [{"op": "set_key", "guid": proxylib.GUID, "key": proxylib.KEYHEX},
+             {"op": "connect", "conn": "old", "attr": root_ws}]
+    order = []
+
+    def reqs(tag):
+        st = [{"op": "request", "conn": "old", "id": "w%s_old" % tag, "method": "GET", "target": "/machine?comp=goalstate&w=%s" % tag,
+               "headers": [["Host", "h"], ["x-ms-azure-host-date", "Thu, 01 Jan 2015 00:00:00 GMT"]]},
+              {"op": "connect", "conn": "n" + tag, "attr": user_imds},
+              {"op": "request", "conn": "n" + tag, "id": "w%s_new" % tag, "method": "GET", "target": "/metadata/instance?w=%s" % tag,
+               "headers": [["Host", "h"], ["Metadata", "true"]]},
+              {"op": "close", "conn": "n" + tag},
+              {"op": "own_call", "kind": "goalstate", "tag": "w%s_own" % tag}, {"op": "sleep", "ms": 150}]
+        order.extend(["w%s_old" % tag, "w%s_new" % tag])
+        return st
+    offsets = [0, 7200, -86400 * 3, 35, 0]
+    for k, off in enumerate(offsets):
+        if k:
+            steps.append({"op": "clock_step", "secs": off})
+        steps += reqs(str(k))
+    ev, d, _ = rig.run_rig({"steps": steps, "drain_ms": 200}, "wall_%s" % prop.lower(), timeout=300,
+                           env_extra={"LD_PRELOAD": so, "VERIF_CLOCK_FILE": cf})
+    cs = [e for e in ev if e["e"] == "ClockStep"]
+    if len(cs) != len(offsets) - 1:
+        raise util.ToolError("wall-clock scenario: %d clock steps recorded" % len(cs))
+    prev = 0
+    for e in cs:
+        moved = (e["wall_after_ms"] - e["wall_before_ms"]) / 1000.0
+        if abs(moved - (e["secs"] - prev)) > 2:
+            raise util.ToolError("the wall-clock shim is not in effect (LD_PRELOAD): step %s moved the clock by %.1f s" % (e["secs"], moved))
+        prev = e["secs"]
+    t0 = None
+    rows, nrecv = [], 0
+    for e in ev:
+        if e["e"] == "ClockStep":
+            rows.append({"e": "step", "secs": e["secs"]})
+        elif e["e"] == "HostRecv" and e.get("t"):
+            hs = e.get("headers") or []
+            dates = [v for n, v in hs if n.lower() == "x-ms-azure-host-date"]
+            if t0 is None:
+                t0 = e["t"] // 1000 - 400000          # keeps every number small and positive after the backward step
+            stamp, parsed = 0, False
+            if dates:
+                try:
+                    stamp, parsed = int(email.utils.parsedate_to_datetime(dates[0]).timestamp()) - t0, True
+                except Exception:
+                    pass
+            nrecv += 1
+            rows.append({"e": "recv", "id": e.get("id") or ("own:" + str(e.get("target"))), "wall": e["t"] // 1000 - t0, "dates": len(dates),
+                         "stamp": stamp, "parsed": parsed, "clientCopy": "Thu, 01 Jan 2015 00:00:00 GMT" in dates,
+                         "own": not e.get("id")})
+    if nrecv < 2 * len(offsets):
+        raise util.ToolError("wall-clock scenario: the host received only %d requests" % nrecv)
+    c.extra["wall_clock_steps"] = {"offsets": offsets, "requests_at_host": nrecv, "own_calls_at_host": sum(1 for r in rows if r.get("own"))}
+    ok, why, res = validate_trace(c, "StampTrace", "StampTrace.cfg", rows, "stamp_%s" % prop, count=1, timeout=300)
+    if not ok:
+        bad = next((r for r in rows if r["e"] == "recv" and (r["dates"] != 1 or r["clientCopy"] or not r["parsed"]
+                                                             or not (r["wall"] - 5 <= r["stamp"] <= r["wall"] + 1))), None)
+        c.violation("after the machine's wall clock was stepped the host receives a date that is not the proxy's current time: %s" % bad,
+                    {"kind": "date-not-current-after-clock-step", "broken": why.replace("invariant ", "")}, {"rows": rows})
 
 
 def run(c):
     proxylib.decide(c, "C05", relevant=lambda row: row['relayed'])
+    wall_clock_steps(c)
 
 
 def replay(c, path):
